@@ -48,6 +48,8 @@ class SimFS:
         self.opens = 0
         self.stats = 0
         self.rlog = None  # optional storage.ReadLog: content reads per task
+        self.links: dict[str, float] = {}   # paths that are symbolic links -> the link's own mtime
+        self.lstats = 0
 
     # ------------------------------------------------------------ mutation
     def mkdir(self, path: str) -> None:
@@ -61,6 +63,7 @@ class SimFS:
 
     def delete(self, path: str) -> None:
         self.files.pop(path, None)
+        self.links.pop(path, None)
         if path in self.dirs and not any(d.startswith(path + "/") for d in self.dirs) \
                 and not any(f.startswith(path + "/") for f in self.files):
             self.dirs.discard(path)   # an (empty) directory that had replaced the file
@@ -69,6 +72,7 @@ class SimFS:
         c = SimFS()
         c.files = dict(self.files)
         c.dirs = set(self.dirs)
+        c.links = dict(self.links)
         c.encoding = self.encoding
         return c
 
@@ -81,8 +85,10 @@ class SimFS:
                 return True
         return False
 
-    def _stat(self, path: str) -> _Stat:
+    def _stat(self, path: str, follow: bool = True) -> _Stat:
         self.stats += 1
+        if not follow:
+            self.lstats += 1
         if self.rlog is not None:
             self.rlog.check_available(path)
         if not self.unavailable and self._blocked(path):
@@ -96,6 +102,9 @@ class SimFS:
         f = self.files.get(path)
         if f is not None:
             self.log.append((_task_name(), "stat", path, "ok"))
+            if not follow and path in self.links:
+                # lstat of a symbolic link: the link's own inode, not the file it points to
+                return _Stat(_stat.S_IFLNK | 0o777, self.links[path], 9)
             return _Stat(_stat.S_IFREG | 0o644, f[1], len(f[0]))
         if path in self.dirs:
             self.log.append((_task_name(), "stat", path, "dir"))
@@ -184,7 +193,7 @@ def install() -> None:
         s = _norm(self)
         if s is None or ACTIVE is None:
             return real_stat(self, follow_symlinks=follow_symlinks)
-        return ACTIVE._stat(s)
+        return ACTIVE._stat(s, follow_symlinks)
 
     def open_(self, mode="r", buffering=-1, encoding=None, errors=None, newline=None):
         s = _norm(self)
@@ -221,13 +230,13 @@ def install() -> None:
         s = _as_sim(path)
         if s is None:
             return real_os_stat(path, *args, **kwargs)
-        return ACTIVE._stat(s)
+        return ACTIVE._stat(s, kwargs.get("follow_symlinks", True))
 
     def os_lstat(path, *args, **kwargs):
         s = _as_sim(path)
         if s is None:
             return real_os_lstat(path, *args, **kwargs)
-        return ACTIVE._stat(s)
+        return ACTIVE._stat(s, False)
 
     def os_fstat(fd):
         if isinstance(fd, int) and fd >= FAKE_FD0 and ACTIVE is not None and fd in ACTIVE.fds:
